@@ -82,6 +82,9 @@ def regen():
     if os.path.exists(os.path.join(tmp, "Frame.v")):
         gen_quiet(tmp)
         gen_unimpl(tmp)
+        gen_dispatch_eq(tmp)
+        import gen_ripo
+        gen_ripo.gen_ripo(tmp)
     os.makedirs(GEN, exist_ok=True)
     changed = []
     for f in sorted(os.listdir(tmp)):
@@ -110,7 +113,7 @@ def gen_quiet(d):
     from the generated text; whether they hold is decided by Coq."""
     bodies = {}
     for f in sorted(os.listdir(d)):
-        if not f.endswith(".v") or f in ("Frame.v", "Unimpl.v") or f[:-2] in [x[0] for x in DERIVED]:
+        if not f.endswith(".v") or f in ("Frame.v", "Unimpl.v", "DispatchEq.v", "RipOnly.v") or f[:-2] in [x[0] for x in DERIVED]:
             continue
         txt = open(os.path.join(d, f)).read()
         for m in re.finditer(r"^(?:Definition|Fixpoint) (\w+)(.*?)(?=^(?:Definition|Fixpoint) |\Z)", txt, re.S | re.M):
@@ -184,6 +187,35 @@ def gen_unimpl(d):
     return forms
 
 
+def gen_dispatch_eq(d):
+    """gen/DispatchEq.v: for every arm `| C_X => instr_x c v_i` of a mnemonic function, the lemma that
+    the two-level dispatcher, on an instruction with that mnemonic and code, IS that instruction
+    function (in every build configuration) - so a theorem about instr_x is a theorem about
+    switch_instruction_mnemonic.  Statements are read from the generated text, proofs checked by Coq."""
+    forms = []
+    for f in sorted(os.listdir(d)):
+        if not (f.startswith("I_") and f.endswith(".v")):
+            continue
+        txt = open(os.path.join(d, f)).read()
+        for mm in re.finditer(r"^Definition (mnemonic_\w+) \(c : cfg\) \(v_i : instr\) : MM unit :=\n"
+                              r"  \(_ <- lift \(\(debug_assert_that c \(mnemonic_eqb \(i_mnemonic v_i\) (M_\w+)\)\)\) ;;\n"
+                              r"(.*?)^  end\)\)\.$", txt, re.S | re.M):
+            for arm in re.finditer(r"^  \| (C_\w+) => \(\((instr_\w+) c v_i\)\)$", mm.group(3), re.M):
+                forms.append((f[:-2], mm.group(1), mm.group(2), arm.group(2), arm.group(1)))
+    mods = sorted(set(x[0] for x in forms))
+    out = ["(* GENERATED by lib/axv.py (gen_dispatch_eq) from the text of gen/I_*.v -- do not edit; regenerated on every check run *)",
+           "From Coq Require Import ZArith Bool List.",
+           "From AxV Require Import Bits Outcome Codes Iced State Rt Mem Trace.",
+           "From AxG Require Import Flags Regs Operand Helpers Dispatch %s." % " ".join(mods), ""]
+    for mod, mfn, mn, ifn, cd in forms:
+        out.append("Lemma dispatch_%s c i s : i_mnemonic i = %s -> i_code i = %s -> switch_instruction_mnemonic c i s = %s c i s.\n"
+                   "Proof. intros Hm Hc. unfold switch_instruction_mnemonic. rewrite Hm. unfold %s. rewrite Hm, Hc. "
+                   "destruct c as [[|] ov]; reflexivity. Qed.\n" % (ifn, mn, cd, ifn, mfn))
+    out.append("Definition dispatched_forms : list (mnemonic * code) :=\n  (%s nil)." % "".join("(%s, %s) ::\n   " % (x[2], x[4]) for x in forms))
+    open(os.path.join(d, "DispatchEq.v"), "w").write("\n".join(out) + "\n")
+    return forms
+
+
 def gen_pinned_diff():
     """names of generated definitions whose text differs from the pinned tree's"""
     pinned = os.path.join(COQ, "gen.pinned")
@@ -216,7 +248,7 @@ def write_coqproject():
     lines += order
     if os.path.exists(os.path.join(GEN, "Frame.v")):
         lines.append("gen/Frame.v")
-    for extra in ("Quiet", "Readonly", "Unimpl"):
+    for extra in ("Quiet", "Readonly", "Unimpl", "DispatchEq", "RipOnly"):
         if os.path.exists(os.path.join(GEN, extra + ".v")):
             lines.append("gen/%s.v" % extra)
     txt = "\n".join(lines) + "\n"
